@@ -291,7 +291,7 @@ def run_case(case):
     try:
         resolved = simprop.run_steps(sim, case, EXTRA)
         own = lambda: [v for v in sim.all_viol if v[0] in OWN and (OWN[v[0]] is None or v[1] in OWN[v[0]])]
-        if not own():
+        if not own() and not sim.viol:      # a monitor of another property stopped the case: state is tainted, no closing verdict
             # closing phase: everybody comes back, faults stop; state == fold and SUCCESS-acknowledged commands stay
             sim.blocked = set()
             for n in list(sim.dead_voters()):
